@@ -62,6 +62,8 @@ pub enum Op {
     Pump { n: usize },
     Quiesce,
     UpdateSnapshots,
+    /// Removes a publisher (and its objects) at the publication server.
+    RemovePublisher { publisher: String },
 }
 
 impl Op {
@@ -94,6 +96,7 @@ impl Op {
             Op::Pump { .. } => "pump",
             Op::Quiesce => "quiesce",
             Op::UpdateSnapshots => "update_snapshots",
+            Op::RemovePublisher { .. } => "remove_publisher",
         }
     }
 }
@@ -319,6 +322,11 @@ fn apply_inner(w: &mut World, op: &Op) -> Result<(), String> {
             w.krill.tasks().schedule(
                 krill::server::mq::Task::UpdateSnapshots,
                 krill::server::mq::now()
+            ).map_err(e)
+        }
+        Op::RemovePublisher { publisher } => {
+            w.krill.repo_manager().remove_publisher(
+                h(publisher).convert(), &w.actor, &w.krill
             ).map_err(e)
         }
     }
